@@ -1,11 +1,8 @@
-// dynmap.go: a monitor-only stream in which the RESTMapper knows the custom
-// kind only while its CRD object exists (knowledge taken at the last Reset),
-// and every history runs in a child process so that a crash of the pipeline
-// becomes a reported failure with the scenario and the trace observed so far.
-//
-// The model has no notion of type knowledge (DESIGN.md, stated limitation):
-// the cases of this stream are evaluated by check_C13_monly, i.e. the trace
-// monitors only, on the implementation's own trace.
+// dynmap.go: the RESTMapper of every session knows the custom kind only while
+// its CRD object exists (knowledge taken at the last Reset; Pipeline.v r_known),
+// and the supervisor: every profile runs in a worker process that journals the
+// scenario and the trace items of the run in progress, so that a crash of the
+// pipeline becomes a reported failure with a failing input instead of a dead check.
 package pipeline
 
 import (
@@ -36,7 +33,7 @@ var (
 func journaled(it Item) Item {
 	journalMu.Lock()
 	if journalW != nil {
-		b, _ := json.Marshal(dynLine{Item: &it})
+		b, _ := json.Marshal(journalLine{Item: &it})
 		journalW.Write(append(b, '\n'))
 	}
 	journalMu.Unlock()
@@ -118,335 +115,169 @@ func (m *dynMapper) ResourcesFor(r schema.GroupVersionResource) ([]schema.GroupV
 	return m.RESTMapper.ResourcesFor(r)
 }
 
-// newDynSession: a session (fresh Applier / Destroyer) whose mapper is a dynMapper.
-func newDynSession() (*Session, error) {
-	s, err := NewSession()
-	if err != nil {
-		return nil, err
+// ---- supervisor ------------------------------------------------------------------------------------
+
+// journalLine is one line of the worker's journal. The journal is truncated at every mark: it
+// describes the execution in progress only.
+type journalLine struct {
+	Mark *journalMark `json:",omitempty"`
+	Item *Item        `json:",omitempty"`
+}
+
+type journalMark struct {
+	Phase    string // "probe" or "run"
+	Prev     Cluster
+	Scenario Scenario
+}
+
+// markRun is called at the start of every execution (worker processes only).
+func markRun(st *Store, sc Scenario, probe bool) {
+	journalMu.Lock()
+	w := journalW
+	journalMu.Unlock()
+	if w == nil {
+		return
 	}
-	crd := kindByName("CustomResourceDefinition").GVR()
-	s.f.mapper = &dynMapper{RESTMapper: s.f.mapper, present: func() bool {
-		srv := s.server()
-		return srv != nil && srv.st.get(crd, "", crdMeta.Name) != nil
-	}}
-	return s, nil
-}
-
-func execRunDyn(st *Store, sc Scenario, auto bool) RunResult {
-	s, err := newDynSession()
-	if err != nil {
-		return RunResult{Failures: []string{"harness: " + err.Error()}, Out: Outcome{Final: st.Observe()}}
+	prev := st.Observe()
+	st.takeNotes()
+	m := journalMark{Phase: "run", Prev: prev, Scenario: sc}
+	if probe {
+		m.Phase = "probe"
 	}
-	defer s.Close()
-	return execRun(st, sc, auto, s)
+	b, _ := json.Marshal(journalLine{Mark: &m})
+	journalMu.Lock()
+	w.Truncate(0)
+	w.Seek(0, 0)
+	w.Write(append(b, '\n'))
+	journalMu.Unlock()
 }
 
-// ---- parent / child protocol ----------------------------------------------------------------------
+const workerFlag = "-pipeline-worker"
 
-type dynRun struct {
-	Local  []LObj
-	Opts   Opts
-	Faults []FAddr
-	Stall  []int // ids that get no status; their wait ends by its timeout (or cancellation)
-	Failed []int // ids reported Failed instead of reconciled
-}
-
-type dynHist struct {
-	Univ    Universe
-	Initial Cluster
-	Runs    []dynRun
-}
-
-// dynLine is one line of the child's output file.
-type dynLine struct {
-	Probe    *int      `json:",omitempty"` // about to probe run k
-	Start    *int      `json:",omitempty"` // about to execute run k, with this scenario
-	Scenario *Scenario `json:",omitempty"`
-	Item     *Item     `json:",omitempty"` // a trace item of the run in progress
-	Done     *int      `json:",omitempty"` // run k completed
-	Trace    []Item    `json:",omitempty"`
-	Final    *Cluster  `json:",omitempty"`
-	Failures []string  `json:",omitempty"`
-	Hung     bool      `json:",omitempty"`
-}
-
-const childFlag = "-pipeline-child"
-
-// ChildMain: when the binary was started as a child of the dynmap stream, runs the history
-// given in the input file, reports into the output file and returns true.
+// ChildMain: when the binary was started as the worker of a supervised profile, does the work
+// and returns true. Every cmd main of a pipeline property calls it first.
 func ChildMain() bool {
-	if len(os.Args) != 4 || os.Args[1] != childFlag {
+	if len(os.Args) != 6 || os.Args[1] != workerFlag {
 		return false
 	}
-	quietKlog()
-	var h dynHist
-	b, err := os.ReadFile(os.Args[2])
-	if err == nil {
-		err = json.Unmarshal(b, &h)
-	}
+	prop, tier, outDir := os.Args[2], os.Args[4], os.Args[5]
+	var seed int64
+	fmt.Sscan(os.Args[3], &seed)
+	j, err := os.OpenFile(filepath.Join(outDir, prop+".journal.jsonl"), os.O_CREATE|os.O_RDWR|os.O_TRUNC, 0o644)
 	if err != nil {
-		fmt.Fprintln(os.Stderr, "pipeline child:", err)
+		fmt.Fprintln(os.Stderr, "pipeline worker:", err)
 		os.Exit(3)
 	}
-	out, err := os.OpenFile(os.Args[3], os.O_CREATE|os.O_WRONLY|os.O_TRUNC, 0o644)
+	journalMu.Lock()
+	journalW = j
+	journalMu.Unlock()
+	sum, err := RunFor(prop)(seed, tier, outDir)
 	if err != nil {
-		fmt.Fprintln(os.Stderr, "pipeline child:", err)
+		fmt.Fprintln(os.Stderr, "pipeline worker:", err)
 		os.Exit(3)
 	}
-	put := func(l dynLine) {
-		b, _ := json.Marshal(l)
-		journalMu.Lock()
-		out.Write(append(b, '\n'))
-		journalMu.Unlock()
+	b, _ := json.Marshal(sum)
+	if err := os.WriteFile(filepath.Join(outDir, prop+".worker.json"), b, 0o644); err != nil {
+		fmt.Fprintln(os.Stderr, "pipeline worker:", err)
+		os.Exit(3)
 	}
-	st := NewStore(h.Univ, h.Initial)
-	for k := range h.Runs {
-		k := k
-		r := h.Runs[k]
-		sc := Scenario{Univ: h.Univ, Local: r.Local, Opts: r.Opts}
-		put(dynLine{Probe: &k, Scenario: &sc})
-		probeSc := sc
-		probeSc.Env = Env{WatchErrAt: -1}
-		pr := execRunDyn(st.Clone(), probeSc, true)
-		sc.Env = Env{WatchErrAt: -1, Faults: r.Faults, Waits: endsForPlain(pr, sc.Opts)}
-		for i := range sc.Env.Waits {
-			w := &sc.Env.Waits[i]
-			var ds []SObs
-			for _, d := range w.Deliv {
-				switch {
-				case containsInt(r.Stall, d.ID):
-					w.End = WCancel
-					if (d.St == SNotFound && sc.Opts.PruneTimeout) || (d.St != SNotFound && sc.Opts.RecTimeout) {
-						w.End = WTimeout
-					}
-				case containsInt(r.Failed, d.ID):
-					ds = append(ds, SObs{ID: d.ID, St: SFailed, Body: true, UID: d.UID, Gen: objGen})
-				default:
-					ds = append(ds, d)
-				}
-			}
-			w.Deliv = ds
-		}
-		put(dynLine{Start: &k, Scenario: &sc})
-		journalMu.Lock()
-		journalW = out
-		journalMu.Unlock()
-		res := execRunDyn(st, sc, false)
-		journalMu.Lock()
-		journalW = nil
-		journalMu.Unlock()
-		fin := res.Out.Final
-		put(dynLine{Done: &k, Trace: res.Out.Trace, Final: &fin, Failures: res.Failures, Hung: res.Hung})
-		if res.Hung {
-			break
-		}
-	}
-	out.Close()
+	j.Close()
+	os.Remove(j.Name())
 	return true
 }
 
-// endsForPlain: the probe's reconciling deliveries; a wait the probe had to time out ends by
-// the scenario's own timeout when it has one, by cancellation otherwise.
-func endsForPlain(pr RunResult, o Opts) []WSched {
-	kinds := waitKinds(pr.Plan)
-	ws := append([]WSched(nil), pr.Waits...)
-	for k := range ws {
-		on := (kinds[k] && o.PruneTimeout) || (!kinds[k] && o.RecTimeout)
-		if ws[k].End == WTimeout && !on {
-			ws[k].End = WCancel
+// Supervised runs the profile in a worker process. When the worker dies (a panic inside the
+// pipeline cannot be recovered from another goroutine) the result is one case — the execution
+// in progress with the trace observed up to the crash — and an implementation failure
+// "run crashed: <panic line> in <scenario>".
+func Supervised(prop string) emit.Runner {
+	return func(seed int64, tier, outDir string) (*emit.Summary, error) {
+		if os.Getenv("VERIF_PIPELINE_INPROCESS") == "1" {
+			return RunFor(prop)(seed, tier, outDir)
 		}
+		ctx, cancel := context.WithTimeout(context.Background(), 40*time.Minute)
+		defer cancel()
+		cmd := exec.CommandContext(ctx, os.Args[0], workerFlag, prop, fmt.Sprint(seed), tier, outDir)
+		var stderr tailBuffer
+		cmd.Stderr = &stderr
+		runErr := cmd.Run()
+		if runErr == nil {
+			b, err := os.ReadFile(filepath.Join(outDir, prop+".worker.json"))
+			if err != nil {
+				return nil, err
+			}
+			sum := emit.NewSummary(prop, seed, tier)
+			if err := json.Unmarshal(b, sum); err != nil {
+				return nil, err
+			}
+			os.Remove(filepath.Join(outDir, prop+".worker.json"))
+			return sum, nil
+		}
+		return crashSummary(prop, seed, tier, outDir, runErr, stderr.String())
 	}
-	return ws
 }
 
-// runChild executes one history in a child process and reconstructs what happened.
-func runChild(dir string, n int, h dynHist) (hist History, failures []string) {
-	hist = History{Univ: h.Univ, Initial: h.Initial}
-	in := filepath.Join(dir, fmt.Sprintf("dynmap_%d.in.json", n))
-	out := filepath.Join(dir, fmt.Sprintf("dynmap_%d.out.jsonl", n))
-	b, _ := json.Marshal(h)
-	if err := os.WriteFile(in, b, 0o644); err != nil {
-		return hist, []string{"harness: " + err.Error()}
-	}
-	os.Remove(out)
-	ctx, cancel := context.WithTimeout(context.Background(), 90*time.Second)
-	defer cancel()
-	cmd := exec.CommandContext(ctx, os.Args[0], childFlag, in, out)
-	var stderr strings.Builder
-	cmd.Stderr = &stderr
-	runErr := cmd.Run()
+// tailBuffer keeps the head and the tail of what the worker wrote to stderr.
+type tailBuffer struct{ head, tail []byte }
 
-	var cur *Scenario
+func (t *tailBuffer) Write(p []byte) (int, error) {
+	if len(t.head) < 8192 {
+		t.head = append(t.head, p...)
+	} else {
+		t.tail = append(t.tail, p...)
+		if len(t.tail) > 8192 {
+			t.tail = t.tail[len(t.tail)-8192:]
+		}
+	}
+	return len(p), nil
+}
+
+func (t *tailBuffer) String() string { return string(t.head) + "\n" + string(t.tail) }
+
+func crashSummary(prop string, seed int64, tier, outDir string, runErr error, stderr string) (*emit.Summary, error) {
+	sum := emit.NewSummary(prop, seed, tier)
+	line := "exit: " + runErr.Error()
+	for _, l := range strings.Split(stderr, "\n") {
+		if strings.HasPrefix(l, "panic:") || strings.HasPrefix(l, "fatal error:") {
+			line = strings.TrimSpace(l)
+			break
+		}
+	}
+	var mark *journalMark
 	var items []Item
-	phase := ""
-	prev := h.Initial
-	if f, err := os.Open(out); err == nil {
+	if f, err := os.Open(filepath.Join(outDir, prop+".journal.jsonl")); err == nil {
 		sc := bufio.NewScanner(f)
 		sc.Buffer(make([]byte, 1<<20), 1<<26)
 		for sc.Scan() {
-			var l dynLine
+			var l journalLine
 			if json.Unmarshal(sc.Bytes(), &l) != nil {
 				continue // a line cut short by the crash
 			}
-			switch {
-			case l.Probe != nil:
-				cur, items, phase = l.Scenario, nil, "probe"
-			case l.Start != nil:
-				cur, items, phase = l.Scenario, nil, "run"
-			case l.Item != nil:
+			if l.Mark != nil {
+				mark, items = l.Mark, nil
+			} else if l.Item != nil {
 				items = append(items, *l.Item)
-			case l.Done != nil:
-				hist.Runs = append(hist.Runs, *cur)
-				hist.Outs = append(hist.Outs, Outcome{Trace: l.Trace, Final: *l.Final})
-				for _, x := range l.Failures {
-					failures = append(failures, x+" [in: "+cur.Text()+"]")
-				}
-				prev, cur, items, phase = *l.Final, nil, nil, ""
 			}
 		}
 		f.Close()
 	}
-	if runErr != nil {
-		// the child died: the run in progress is reported with what was observed of it
-		line := "exit: " + runErr.Error()
-		for _, l := range strings.Split(stderr.String(), "\n") {
-			if strings.HasPrefix(l, "panic:") || strings.HasPrefix(l, "fatal error:") {
-				line = strings.TrimSpace(l)
-				break
-			}
-		}
-		if cur == nil {
-			failures = append(failures, "run crashed: "+line+" (between runs)")
-			return hist, failures
-		}
-		cur.Univ = h.Univ
-		sort.SliceStable(items, func(i, j int) bool { return items[i].Seq < items[j].Seq })
-		hist.Runs = append(hist.Runs, *cur)
-		hist.Outs = append(hist.Outs, Outcome{Trace: items, Final: prev})
-		failures = append(failures, fmt.Sprintf("run crashed: %s in %s [%s; child process of the dynmap stream]", line, cur.Text(), phase))
+	if mark == nil {
+		sum.ImplFailures = []string{"run crashed: " + line + " (before the first run)"}
+		sum.Rule = "the worker process of the profile crashed"
+		return sum, nil
 	}
-	for i := range hist.Runs {
-		hist.Runs[i].Univ = h.Univ
-	}
-	return hist, failures
-}
-
-// ---- scenarios --------------------------------------------------------------------------------------
-
-func dynHistories(tier string) []dynHist {
-	u := NewUniverse([]UEntry{Entry("CustomResourceDefinition", "", crdMeta.Name), Entry("ConfigMap", invNS, "cm-a"), Entry("Bar", invNS, "bar-a")})
-	crd, cm, bar := u.Index(crdMeta), u.Index(Entry("ConfigMap", invNS, "cm-a").Meta), u.Index(Entry("Bar", invNS, "bar-a").Meta)
-	all := []LObj{{ID: crd, Ver: 1}, {ID: cm, Ver: 1}, {ID: bar, Ver: 1}}
-	only := func(ids ...int) []LObj {
-		var l []LObj
-		for _, i := range ids {
-			l = append(l, LObj{ID: i, Ver: 1})
-		}
-		return l
-	}
-	empty := Cluster{NextUID: 100}
-	live := func(ids ...int) Cluster {
-		c := Cluster{NextUID: 100, HasInv: true}
-		for k, i := range ids {
-			c.Objs = append(c.Objs, CObj{ID: i, UID: uint64(k + 1), Owner: OOurs, Ver: 1}.Applied())
-			c.Inv = append(c.Inv, i)
-		}
-		sort.Slice(c.Objs, func(a, b int) bool { return c.Objs[a].ID < c.Objs[b].ID })
-		sort.Ints(c.Inv)
-		return c
-	}
-	ap := func(o Opts) Opts { o.Prune = true; return o }
-	plain := ap(Opts{Policy: PMustMatch})
-	timed := ap(Opts{Policy: PMustMatch, RecTimeout: true, PruneTimeout: true})
-	destroy := Opts{Destroy: true, Prune: true, Policy: PMustMatch}
-	var hs []dynHist
-	add := func(init Cluster, runs ...dynRun) { hs = append(hs, dynHist{Univ: u, Initial: init, Runs: runs}) }
-	// all fine: apply, apply again, custom resource alone, destroy
-	add(empty, dynRun{Local: all, Opts: plain}, dynRun{Local: all, Opts: plain}, dynRun{Local: only(cm, bar), Opts: plain}, dynRun{Opts: destroy})
-	add(empty, dynRun{Local: all, Opts: ap(Opts{Policy: PAdoptAll, SSA: true, StatusEvents: true})}, dynRun{Opts: destroy})
-	// the CRD's apply is rejected (every kind of read / write), skip-invalid and exit-early
-	for k := range faultErrs {
-		if faultErrs[k] != 409 {
-			add(empty, dynRun{Local: all, Opts: plain, Faults: []FAddr{{Kind: "FApply", I: crd, Err: k}}}, dynRun{Local: all, Opts: plain})
-		}
-		add(empty, dynRun{Local: all, Opts: plain, Faults: []FAddr{{Kind: "FGet", I: crd, N: k % 2, Err: k}}})
-	}
-	add(empty, dynRun{Local: all, Opts: ap(Opts{Policy: PAdoptAll, SSA: true}), Faults: []FAddr{{Kind: "FApply", I: crd}}})
-	// the CRD's reconcile fails / times out / the run is cancelled while waiting for it
-	add(empty, dynRun{Local: all, Opts: plain, Failed: []int{crd}}, dynRun{Local: all, Opts: plain})
-	add(empty, dynRun{Local: all, Opts: timed, Stall: []int{crd}}, dynRun{Local: all, Opts: timed})
-	add(empty, dynRun{Local: all, Opts: plain, Stall: []int{crd}})
-	// the CRD is there already; only the custom resource is applied; then it fails
-	add(live(crd), dynRun{Local: only(bar, cm), Opts: plain}, dynRun{Opts: destroy})
-	add(live(crd), dynRun{Local: only(crd, bar), Opts: plain, Faults: []FAddr{{Kind: "FApply", I: bar}}})
-	// the CRD is pruned while a custom resource is applied; the custom resource is pruned, the CRD stays
-	add(live(crd, bar, cm), dynRun{Local: only(bar, cm), Opts: timed}, dynRun{Local: only(cm), Opts: timed})
-	add(live(crd, bar, cm), dynRun{Local: only(crd, cm), Opts: timed}, dynRun{Local: only(cm), Opts: timed})
-	// destroy over CRD + custom resource, plain / delete of the custom resource rejected / it lingers
-	add(live(crd, bar, cm), dynRun{Opts: destroy}, dynRun{Opts: destroy})
-	add(live(crd, bar, cm), dynRun{Opts: destroy, Faults: []FAddr{{Kind: "FDelete", I: bar, Err: 1}}}, dynRun{Opts: destroy})
-	add(live(crd, bar, cm), dynRun{Opts: Opts{Destroy: true, Prune: true, Policy: PMustMatch, PruneTimeout: true}, Stall: []int{bar}})
-	// dry-run (client and server) of the first apply, and over an existing CRD
-	for _, d := range []Dry{DClient, DServer} {
-		add(empty, dynRun{Local: all, Opts: ap(Opts{Policy: PMustMatch, Dry: d})}, dynRun{Local: all, Opts: plain})
-		add(live(crd), dynRun{Local: all, Opts: ap(Opts{Policy: PMustMatch, Dry: d})})
-		add(live(crd, bar, cm), dynRun{Opts: Opts{Destroy: true, Prune: true, Policy: PMustMatch, Dry: d}})
-	}
-	// a custom resource without its CRD anywhere (unknown type), skip-invalid and exit-early
-	add(empty, dynRun{Local: only(cm, bar), Opts: ap(Opts{Policy: PMustMatch, ValPol: VSkipInvalid})})
-	add(empty, dynRun{Local: only(cm, bar), Opts: plain})
-	// the inventory tracks a custom resource whose CRD is gone
-	add(live(bar, cm), dynRun{Local: only(cm), Opts: plain}, dynRun{Opts: destroy})
-	add(live(bar, cm), dynRun{Local: all, Opts: plain}, dynRun{Opts: destroy})
-	if tier == "thorough" {
-		// the same with the other policies and server-side apply
-		base := append([]dynHist(nil), hs...)
-		for _, pol := range []Policy{PAdoptIfNoInventory, PAdoptAll} {
-			for _, h := range base {
-				var runs []dynRun
-				for _, r := range h.Runs {
-					r.Opts.Policy = pol
-					r.Opts.SSA = !r.Opts.Destroy && pol == PAdoptAll
-					runs = append(runs, r)
-				}
-				hs = append(hs, dynHist{Univ: h.Univ, Initial: h.Initial, Runs: runs})
-			}
-		}
-	}
-	return hs
-}
-
-// AddDynmap runs the dynmap stream (every history in a child process) and adds its cases
-// (check_C13_monly) and failures to the summary of the C13 check.
-func AddDynmap(sum *emit.Summary, seed int64, tier, outDir string) error {
-	cf := &emit.CaseFile{Name: "Cases_C13_dynmap",
-		Imports: "From CliUtils Require Import Model.PipelineTypes Corr.CorrPipeline.", Check: "check_C13_monly"}
-	runs := 0
-	for n, h := range dynHistories(tier) {
-		hist, fails := runChild(outDir, n, h)
-		sum.ImplFailures = append(sum.ImplFailures, fails...)
-		if len(hist.Runs) == 0 {
-			continue
-		}
-		runs += len(hist.Runs)
-		cf.Add(hist.Coq(), "dynmap "+hist.Text())
-		sum.Count("dynmap:history")
-		for _, o := range hist.Outs {
-			for _, it := range o.Trace {
-				if strings.Contains(it.Text, "unknown resource types") || strings.Contains(it.Text, "no matches for kind") {
-					sum.Count("dynmap:run-with-unknown-type-outcome")
-					break
-				}
-			}
-		}
-	}
+	sort.SliceStable(items, func(i, j int) bool { return items[i].Seq < items[j].Seq })
+	h := History{Univ: mark.Scenario.Univ, Initial: mark.Prev, Runs: []Scenario{mark.Scenario},
+		Outs: []Outcome{{Trace: items, Final: mark.Prev}}}
+	cf := &emit.CaseFile{Name: "Cases_" + prop + "_crash",
+		Imports: "From CliUtils Require Import Model.PipelineTypes Corr.CorrPipeline.", Check: "check_" + prop}
+	cf.Add(h.Coq(), "crashed "+h.Text())
 	if err := cf.Write(outDir, sum); err != nil {
-		return err
+		return nil, err
 	}
-	sum.Evaluations += runs
-	sum.Count("dynmap:runs")
-	sum.Distribution["dynmap:runs"] = runs
-	sum.Rule += " | dynmap: monitor-only stream (check_C13_monly) over a RESTMapper that knows the custom kind only while its CRD object exists " +
-		"(knowledge taken at the last Reset); every history runs in a child process, a crash is reported with the scenario and the trace observed so far"
-	return nil
+	sum.Evaluations = 1
+	sum.ImplFailures = []string{fmt.Sprintf("run crashed: %s in %s [%s; the worker process of the profile died, the cases before it are lost]",
+		line, mark.Scenario.Text(), mark.Phase)}
+	sum.Rule = "the worker process of the profile crashed: one case, the execution in progress with the trace observed up to the crash"
+	return sum, nil
 }
